@@ -225,6 +225,22 @@ impl FsOcflStore {
         Ok(())
     }
 
+    /// Replaces the version declaration in the root of a staged object with the declaration that
+    /// matches the inventory's type. This is only needed when the spec version of an object that
+    /// has not been committed yet is changed.
+    pub fn restage_object_declaration(&self, inventory: &Inventory) -> Result<()> {
+        let object_root = PathBuf::from(&inventory.storage_path);
+        let version = SpecVersion::try_from_inventory_type(&inventory.type_declaration)?;
+
+        let old_namastes = find_files(&object_root, OBJECT_NAMASTE_FILE_PREFIX)?;
+        write_object_namaste(&object_root, version)?;
+        for old in old_namastes {
+            util::remove_file_ignore_not_found(object_root.join(old))?;
+        }
+
+        Ok(())
+    }
+
     fn require_layout(&self) -> Result<&StorageLayout> {
         match &self.storage_layout {
             Some(layout) => Ok(layout),
